@@ -249,14 +249,14 @@ def check(pid, tier, seed):
         tstats.append(st)
         for x, info in rej.items():
             verdict.violation(sig_of("lock", info), {"mode": "hold", "matched": info["matched"], "next": info["next"]},
-                              {"component": "lock", "source": src[x], "events": info["events"]})
+                              {"component": "lock", "xid": x, "source": src[x], "events": info["events"]})
     elif pid == "C02":
         acc, rej, st = val("nodl", nonbarrier)
         tstats.append(st)
         for x, info in rej.items():
             if last_event(info) == "Deadlock":
                 verdict.violation(sig_of("lock", info), {"mode": "nodl", "matched": info["matched"], "next": info["next"]},
-                                  {"component": "lock", "source": src[x], "events": info["events"]})
+                                  {"component": "lock", "xid": x, "source": src[x], "events": info["events"]})
     elif pid == "C03":
         acc, rej, st = val("lazy", nonbarrier)
         tstats.append(st)
@@ -267,7 +267,7 @@ def check(pid, tier, seed):
                 if x in hrej or last_event(info) in ("Deadlock", "Crash"):
                     continue   # attributed to C01 / C02
                 verdict.violation(sig_of("lock", info), {"mode": "lazy", "matched": info["matched"], "next": info["next"]},
-                                  {"component": "lock", "source": src[x], "events": info["events"]})
+                                  {"component": "lock", "xid": x, "source": src[x], "events": info["events"]})
     elif pid == "C12":
         acc, rej, st = val("eager")
         tstats.append(st)
@@ -281,7 +281,7 @@ def check(pid, tier, seed):
                 if x in lrej and not (barrier and last_event(info) == "Deadlock"):
                     continue   # already wrong for the weaker contract: C01 / C02 / C03 own it
                 verdict.violation(sig_of("lock", info), {"mode": "eager", "matched": info["matched"], "next": info["next"]},
-                                  {"component": "lock", "source": src[x], "events": info["events"]})
+                                  {"component": "lock", "xid": x, "source": src[x], "events": info["events"]})
 
     parked = sum(1 for e in execs.values() if any(ev["e"] == "Parked" for ev in e))
     distinct = len({json.dumps(e) for e in execs.values()})
@@ -305,3 +305,16 @@ def check(pid, tier, seed):
     rc = verdict.finish()
     common.write_evidence(pid, tier, seed, "model_checking", cov, ASSUMPTIONS, time.time() - t0, len(verdict.violations))
     return rc
+
+
+TRACE_SPEC = lambda pid: ("RWLockTrace.tla", "RWLockTrace_%s.cfg" % {"C01": "hold", "C02": "nodl", "C03": "lazy", "C12": "eager"}[pid])
+
+
+def all_harnesses():
+    exe, _ = harness()
+    return {exe.name: exe}
+
+
+def replay(pid, path):
+    import sys
+    return common.replay(pid, path, sys.modules[__name__])
